@@ -33,7 +33,12 @@ var c15Alphabet = []string{"a", "\x00", "<", ">", " ", "\t", "\r", "\n", "/", "√
 
 // c15Wide: the alphabet of the random tier - also characters whose code point ends in the byte of a white
 // space character (U+4E0A, U+4E0D, U+4E09, U+2020, U+010D, U+0120, U+2009) or that Unicode calls a space
-var c15Wide = append(append([]string{}, c15Alphabet...), "‰∏ä", "‰∏ç", "‰∏â", "‚Ä†", "ƒç", "ƒ†", "\u2009", "\u3000", "\u0085", "\ufeff", "\U0001F600")
+var c15Wide = append(append([]string{}, c15Alphabet...), "‰∏ä", "‰∏ç", "‰∏â", "‚Ä†", "ƒç", "ƒ†", "\u2009", "\u3000", "\u0085", "\ufeff", "\U0001F600",
+	// bytes that are not valid UTF-8 (a file in a legacy 8-bit encoding), as the marker runes of ref.ExpandRaw:
+	// 0xE9, 0xFF, 0xA0 (a no-break space in Latin-1), 0x85, a truncated sequence
+	"\uf7e9", "\uf7ff", "\uf7a0", "\uf785", "\uf7e2\uf782",
+	// pieces of markup, in either case
+	"A", "<A>", "</A>", "<Br/>", "<a HREF=\"u\">", "<TD", "<Img src=x>")
 
 // c15Forms: a block whose body ends in a comment; mid is the closing or continuing tag behind the comment,
 // close what follows the text behind it. innerShown: the body text before the comment is rendered.
@@ -69,6 +74,9 @@ var c15Neighbors = []struct{ name, before, after, outBefore, outAfter string }{
 	{"literal", "{literal}[{/literal}", "{literal}]{/literal}", "[", "]"},
 	{"self-closing-let", "{let $q: 1 /}", "{$q}", "", "1"},
 	{"call-with-param", "{call .f}{param x: 2 /}{/call}", "{call .f}{param x}3{/param}{/call}", "F2", "F3"},
+	// (the text of a message: what looks like an HTML tag in it is a placeholder of the message, and still text)
+	{"msg", "{msg desc=\"d\"}", "{/msg}", "", ""},
+	{"msg-after-print", "{msg desc=\"d\"}{$x}", "{$x}{/msg}", "X", "X"},
 }
 
 // gaps: places between two tags of one command, where no text can be rendered
@@ -86,6 +94,10 @@ var c15Header bool
 
 func c15Source(bodies []string) string {
 	var b strings.Builder
+	bodies = append([]string{}, bodies...)
+	for i := range bodies {
+		bodies[i] = ref.ExpandRaw(bodies[i])
+	}
 	b.WriteString("{namespace n}\n/** */\n{template .e}E{/template}\n/** @param x */\n{template .f}F{$x}{/template}\n/**\n * @param x\n * @param y */\n{template .g}G{$x}{$y}{/template}\n")
 	for i, body := range bodies {
 		if c15Header {
@@ -170,6 +182,9 @@ func checkC15(c C15Case) Verdict {
 	c15Header = c.Header
 	defer func() { c15Header = false }()
 	nb := c15Neighbors[c.Neighbor%len(c15Neighbors)]
+	if c.Level != "L1" {
+		nb = c15Neighbors[c.Neighbor%(len(c15Neighbors)-2)] // (the two message neighbours take text only)
+	}
 	switch c.Level {
 	case "L1g":
 		// a text run where only the separation of two tags may stand (between {switch} and its first
